@@ -315,7 +315,21 @@ func oracleC02(p *plan.Plan, his []plan.Rec, res *plan.Result) {
 					class = "delete-undone"
 				}
 				extra := ""
-				if w := writerOf(his, r.Op.Key, v); w != nil {
+				if class == "delete-undone" {
+					// the routing table changed on some member while the acknowledged Delete was running: it
+					// used owner lists that were replaced under it (known finding)
+					var last *plan.Rec
+					for j := range his {
+						d := &his[j]
+						if d.Op.K == "del" && d.Op.Key == r.Op.Key && d.Err == "" && d.Phase <= 1 && (last == nil || d.TRet > last.TRet) {
+							last = d
+						}
+					}
+					if last != nil && last.RtInv != last.RtRet {
+						extra = " routing-changed-during-delete"
+					}
+				}
+				if w := writerOf(his, r.Op.Key, v); w != nil && extra == "" {
 					switch {
 					case class == "delete-undone" && firstStop >= 0 && w.TInv >= firstStop:
 						// the value that came back was itself written while the routing tables were changing
